@@ -40,13 +40,16 @@ type ReplayFile struct {
 	Tape      []uint32          `json:"tape"`
 	Opts      map[string]string `json:"opts,omitempty"`
 	Items     []Item            `json:"items"`
-	Scenario  []string          `json:"scenario"`
-	Log       []string          `json:"log"`
-	LogHash   string            `json:"log_hash"`
-	Repro     string            `json:"reproduction"`
-	Crash     string            `json:"crash,omitempty"`
-	OrigLen   int               `json:"original_tape_len"`
-	MinTried  int               `json:"minimiser_candidates"`
+	// FirstSeen: the items of the run that first showed the clause (kept because a replay may not show it again when the
+	// outcome depends on map iteration order or on a free-running leg)
+	FirstSeen []Item   `json:"first_seen,omitempty"`
+	Scenario  []string `json:"scenario"`
+	Log       []string `json:"log"`
+	LogHash   string   `json:"log_hash"`
+	Repro     string   `json:"reproduction"`
+	Crash     string   `json:"crash,omitempty"`
+	OrigLen   int      `json:"original_tape_len"`
+	MinTried  int      `json:"minimiser_candidates"`
 }
 
 func repoRev() string {
@@ -594,6 +597,13 @@ func reportViolation(c *Check, tier string, seed int, pool *Pool, o *Outcome, cl
 	rf := &ReplayFile{Property: c.ID, Clause: clause, Tier: tier, Seed: o.Seed, BatchSeed: seed, RepoRev: repoRev(), Tape: tape,
 		Scenario: final.Scenario, Log: final.Log, LogHash: final.LogHash, OrigLen: len(o.Tape), MinTried: tried,
 		Repro: fmt.Sprintf("%d/3 replays of the minimised tape showed the clause; %d distinct event-log hashes", ok, len(hashes))}
+	if ok == 0 {
+		for _, it := range o.Items {
+			if it.KF == "" && it.Clause == clause {
+				rf.FirstSeen = append(rf.FirstSeen, it)
+			}
+		}
+	}
 	for _, it := range final.Items {
 		if it.KF == "" {
 			rf.Items = append(rf.Items, it)
